@@ -52,7 +52,7 @@ def static_observer_sites():
     """Lists the call sites in /repo of the UnorderedHashMap observers whose order-freedom is conditional
     (aggregate_by needs a commutative reduce, *_sorted_by_key an injective key, merge a symmetric handler).
     Informational: goes into the evidence, decides nothing."""
-    rc, out = vlib.run(r"grep -rnE '\.(aggregate_by|iter_sorted_by_key|into_iter_sorted_by_key)\(' /repo/crates "
+    rc, out = vlib.run(r"grep -rnE '\.(aggregate_by|iter_sorted_by_key|into_iter_sorted_by_key)\(' %s/crates " % os.environ.get("VERIF_REPO", "/repo") +
                        r"--include=*.rs | grep -v _test.rs | grep -v 'unordered_hash_map.rs'", timeout=120)
     return [l.strip()[:200] for l in out.splitlines() if l.strip()]
 
@@ -65,7 +65,7 @@ def run_compiler_matrix(ctx, ok_build):
     vlib.clean_dir(d)
     t = time.time()
     rc, out = vlib.run([os.path.join(vlib.HARNESS, "target", "debug", "h12c"), d, ctx.tier],
-                       timeout=2400 if ctx.thorough else 420)
+                       timeout=3000 if ctx.thorough else 600)
     ctx.log("h12c: rc=%d (%.0fs)" % (rc, time.time() - t))
     sp = os.path.join(d, "summary.json")
     if rc != 0 or not os.path.exists(sp):
@@ -122,11 +122,34 @@ def run(ctx):
         ctx.violation("kernel oracle (%s): %s" % (f.get("leg"), f.get("why", "")[:300]),
                       dict(f, replay_cmd="VERIF_SEED=%d ./check C12 --tier %s" % (ctx.seed, ctx.tier)),
                       found_input=True)
-    for dfr in mdiffs[:6]:
-        # the C12 violation proper: two configurations of the same compilation give different bytes
+    # Differences of the compile matrix.  Those the harness classified as the known finding (same
+    # functions, only members of call cycles differ, only in where the cycle's gas withdrawal sits) go
+    # through the known-findings gate; every other difference is the C12 violation proper.
+    known_diffs = [d for d in mdiffs if d.get("known_scc_representative")]
+    other_diffs = [d for d in mdiffs if not d.get("known_scc_representative")]
+    seen_known = set()
+    for dfr in known_diffs:
+        if dfr.get("project") in seen_known:
+            continue
+        seen_known.add(dfr.get("project"))
+        ctx.violation("compilation output depends on the schedule/history (placement of a call cycle's gas withdrawal): "
+                      "project %s, artifact %s differs between [%s] and [%s]: %s" % (
+                          dfr.get("project"), dfr.get("artifact"), dfr.get("config_a"), dfr.get("config_b"),
+                          dfr.get("known_scc_representative", "")[:400]),
+                      dict(dfr, replay_cmd="VERIF_SEED=%d ./check C12 --tier %s" % (ctx.seed, ctx.tier)),
+                      found_input=True,
+                      fingerprint="scc-representative-intern-id %s:%s" % (dfr.get("project"), dfr.get("artifact")))
+    seen_other = set()
+    for dfr in other_diffs:
+        key = (dfr.get("project"), dfr.get("artifact"))
+        if key in seen_other or len(seen_other) >= 8:
+            continue
+        seen_other.add(key)
         ctx.violation("compilation output depends on the schedule/history: project %s, artifact %s differs between "
-                      "[%s] and [%s]: %s" % (dfr.get("project"), dfr.get("artifact"), dfr.get("config_a"),
-                                             dfr.get("config_b"), dfr.get("first_difference", "")[:300]),
+                      "[%s] and [%s]: %s%s" % (dfr.get("project"), dfr.get("artifact"), dfr.get("config_a"),
+                                               dfr.get("config_b"), dfr.get("first_difference", "")[:300],
+                                               (" (not the known call-cycle finding: %s)" % dfr["not_known_because"])
+                                               if dfr.get("not_known_because") else ""),
                       dict(dfr, replay_cmd="VERIF_SEED=%d ./check C12 --tier %s" % (ctx.seed, ctx.tier)),
                       found_input=True, fingerprint="%s:%s" % (dfr.get("project"), dfr.get("artifact")))
     if corr_bad and not oracle_bad:
@@ -170,6 +193,8 @@ def run(ctx):
         "input_distribution": summary,
         "compiler_matrix": {k: v for k, v in msum.items() if k != "samples"},
         "matrix_differences": len(mdiffs),
+        "matrix_differences_known_finding_scc_representative": len(known_diffs),
+        "matrix_differences_unexplained": len(other_diffs),
         "case_shards": n_shards,
         "correspondence_disagreements": len(corr_bad),
         "oracle_failures": len(oracle_bad),
